@@ -11,7 +11,7 @@ VARIABLES tid, l
 tvars == <<vars, tid, l>>
 Ev == Traces[tid][l]
 
-EmptyArch == [members |-> <<>>, nfolders |-> 0, damaged |-> {}, encrypted |-> FALSE, bypath |-> TRUE, methods |-> <<"?">>]
+EmptyArch == [members |-> <<>>, nfolders |-> 0, damaged |-> {}, encrypted |-> FALSE, bypath |-> TRUE, methods |-> <<"?">>, extra |-> 0]
 TInit == /\ tid \in 1..Len(Traces) /\ l = 1
          /\ a = EmptyArch /\ dec = <<>> /\ dirty = FALSE /\ targets = <<>> /\ res = NoRes /\ ncalls = 0 /\ disk = 0
 IsEvent(name) == l <= Len(Traces[tid]) /\ Ev.e = name /\ l' = l + 1 /\ tid' = tid
@@ -20,7 +20,8 @@ ToSet(s) == { s[i] : i \in 1..Len(s) }
 
 TArch == /\ IsEvent("arch") /\ a = EmptyArch
          /\ a' = [members |-> Ev.members, nfolders |-> Ev.nfolders, damaged |-> {}, encrypted |-> Ev.encrypted, bypath |-> Ev.bypath,
-                  methods |-> IF "methods" \in DOMAIN Ev THEN Ev.methods ELSE <<"?">>]
+                  methods |-> IF "methods" \in DOMAIN Ev THEN Ev.methods ELSE <<"?">>,
+                  extra |-> IF "extra" \in DOMAIN Ev THEN Ev.extra ELSE 0]       \* folders that hold no stream (sessions of directories only)
          /\ dec' = [f \in 1..Ev.nfolders |-> -1]
          /\ UNCHANGED <<dirty, targets, res, ncalls, disk>>
 
@@ -67,7 +68,7 @@ TArchInfo == /\ IsEvent("call") /\ Ev.name = "archiveinfo" /\ ArchiveInfo
              /\ a.bypath =>
                   /\ Ev.ok
                   /\ Ev.sizes[1] = SumSizes(N)                                   \* total size
-                  /\ Ev.names[1] = NFolders                                      \* block count
+                  /\ Ev.names[1] = NFolders + a.extra                            \* block count
                   /\ Ev.flag = (\E f \in 1..NFolders : Cardinality(FolderMembers(f)) > 1)   \* solid flag
                   /\ (a.methods # <<"?">> => Ev.methods = a.methods)                   \* method names = coders present
 
